@@ -158,3 +158,7 @@ def check(ctx: Ctx) -> None:
     helper_obligations(ctx, "C04")
     html_algebra(ctx)
     exactly_once(ctx, m)
+    # values displayed inside a `with tag:` block: the output of _repr_html_() is kept as HTML(), HTML() values stay HTML()
+    from ..interp import Interp
+    from .c17 import wrapper_table
+    wrapper_table(ctx, Interp(ctx.prog), rule="C04.hook", only={"REPR_ONLY", "HTMLSTR"})
